@@ -37,6 +37,7 @@ RULE = (
     "bijections) and get_prefixes/get_uri_prefixes equal what the records denote. Record(...) listing its own canonical "
     "value as synonym must fail validation. key = clash kinds present x route x size class; non-trivial = a synonym-level "
     "clash, a both-sides clash, or a valid map with nested URI prefixes and >= 20 records."
+    " One case in 25: a record with 31-300 synonyms in the caller's order and a second record claiming one of them or not (round 21)."
 )
 ASSUMPTIONS = ["independent clash finder rtmon.spec.clashes (pairwise set intersection)"]
 
